@@ -1,6 +1,8 @@
 package main
 
 import (
+	"bytes"
+	"encoding/gob"
 	"fmt"
 	"io/ioutil"
 	"os"
@@ -401,7 +403,7 @@ func c20Monitor(args []string) int {
 			variants = append(variants, full[:k])
 			names = append(names, fmt.Sprintf("prefix-%d", k))
 		}
-		for k := 0; k < 24 && len(full) > 0; k++ {
+		for k := 0; k < 60 && len(full) > 0; k++ {
 			v := append([]byte{}, full...)
 			i := rng.Intn(len(v))
 			v[i] ^= byte(1 << uint(rng.Intn(8)))
@@ -428,11 +430,16 @@ func c20Monitor(args []string) int {
 					rep.Violate("cache-damaged-error", in, err.Error())
 					break
 				}
-				// a corrupted but decodable cache (bit flip in a counter) is outside the property
+				// a corrupted but still decodable cache (bit flip in a counter) is outside the property;
+				// one that gob rejects is "otherwise undecodable" and must give the source-built book
 				if strings.HasPrefix(names[vi], "bitflip") {
 					rep.Stats["bitflip_variants"]++
-					_ = b
-					break
+					var probe map[uint64]openingbook.BookEntry
+					if gob.NewDecoder(bytes.NewReader(v)).Decode(&probe) == nil {
+						rep.Stats["bitflip_still_decodable"]++
+						break
+					}
+					in["gob_rejects_this_file"] = true
 				}
 				if d := diffSnap(exp, snapshotOf(b)); d != "" {
 					rep.Violate("cache-damaged-wrong-book", in, d)
